@@ -53,8 +53,8 @@ def run(tier, seed, replay=None):
         if len(vals) < 1000:
             raise Infra("only %d values recovered from TLC's state dump" % len(vals))
         trace = sc.path("trace.ndjson")
-        inp = {"seed": seed, "trace": trace, "n_enc": 6000 if thorough else 800, "n_dec": 1500 if thorough else 150,
-               "n_files": 600 if thorough else 60, "judge_max": 160, "vals": vals}
+        inp = {"seed": seed, "trace": trace, "n_enc": 24000 if thorough else 800, "n_dec": 6000 if thorough else 150,
+               "n_files": 2400 if thorough else 60, "judge_max": 160, "vals": vals}
         rc, out, err = vlib.run_vdrv(["rdbvalue"], stdin=json.dumps(inp), timeout=3000)
         if rc != 0:
             raise Infra("vdrv rdbvalue failed rc=%s: %s" % (rc, err[-2000:]))
